@@ -5,7 +5,6 @@ import ExaModel.Props.C10
 #print axioms Exa.Props.C10.code_is_class_partial
 #print axioms Exa.Props.C10.code_is_class_reachable
 #print axioms Exa.Props.C10.open_in_established_is_ignored
-#print axioms Exa.Props.C10.operational_is_answered_1_0
 #print axioms Exa.Props.C10.openwait_is_answered_5_1
 #print axioms Exa.Props.C10.f30_witness
 #print axioms Exa.Props.C10.f18_no_hold_timer_in_openconfirm
